@@ -13,7 +13,7 @@ print(f"""You are given ONE semantic property of the Go Redis client library red
 
 Environment for every shell call (the sandbox is offline):
 export PATH=/root/go/pkg/mod/golang.org/toolchain@v0.0.1-go1.25.0.linux-amd64/bin:$PATH GOTOOLCHAIN=local GOFLAGS=-mod=mod GOPROXY=off GOSUMDB=off
-Always wrap long commands in `timeout`. The repository is a multi-module repo (root module plus add-on modules such as rueidiscompat, rueidislock, rueidisprob, rueidislimiter, rueidisaside, om, mock ... each with its own go.mod); the unit tests run without a Redis server for the most part (tests that need a server fail offline both before and after your change - ignore those, but compare against a run on the untouched tree so you know which ones).
+Always wrap long commands in `timeout`. NEVER use `git stash` (the stash is shared between all worktrees of the repository and other people use it concurrently): to set a change aside use `git diff > somefile` and `git apply -R somefile` / `git checkout -- <files>`. The repository is a multi-module repo (root module plus add-on modules such as rueidiscompat, rueidislock, rueidisprob, rueidislimiter, rueidisaside, om, mock ... each with its own go.mod); the unit tests run without a Redis server for the most part (tests that need a server fail offline both before and after your change - ignore those, but compare against a run on the untouched tree so you know which ones).
 
 The property (JSON record; `statement` is the property, the rest tells you where it lives in the code):
 {json.dumps(rec, indent=1)}
